@@ -107,6 +107,26 @@ def coq_closure(prop_v):
             todo.append(m.group(1).replace(".", "/") + ".v")
     return sorted(seen)
 
+def closure_hash(prop_v):
+    h = hashlib.sha256()
+    for f in coq_closure(prop_v):
+        h.update(f.encode()); h.update(open(os.path.join(COQ, f), "rb").read())
+    return h.hexdigest()
+
+def warm_assumptions(prop_v):
+    """used by bin/setup (in parallel): capture the Print Assumptions output of one property file into the cache"""
+    key = closure_hash(prop_v)
+    cpath = os.path.join(BUILD, "assumptions", prop_v.replace("/", "_") + ".json")
+    try:
+        if json.load(open(cpath)).get("key") == key: return "cached"
+    except (OSError, ValueError):
+        pass
+    rc, out, err = sh(["coqc", "-Q", ".", "OVM", prop_v], cwd=COQ, timeout=3000)
+    if rc == 0:
+        os.makedirs(os.path.dirname(cpath), exist_ok=True)
+        json.dump({"key": key, "rc": 0, "out": out}, open(cpath, "w"))
+    return "rc=%d" % rc
+
 def grep_forbidden(prop_v=None):
     """Admitted / admit / Axiom / ... in the files the property file depends on (all files when prop_v is None)"""
     bad = []
@@ -200,8 +220,26 @@ def coq_prove(ctx, prop_v, timeout=1500):
                 ctx.broken.append({"kind": "theorem", "name": "%s:%s (dependency of %s)" % (failed_file, lemma, prop_v),
                                    "detail": errtxt})
             return False
-        # capture assumptions
-        rc, out, err = sh(["coqc", "-Q", ".", "OVM", prop_v], cwd=COQ, timeout=timeout)
+        # capture assumptions (the output of the Print Assumptions commands).  The .vo files were just (re)checked by make against the
+        # current sources; re-running coqc on the property file only re-prints, which is deterministic in the sources of its dependency
+        # closure - so the printed text is cached under the hash of exactly those sources (bin/setup warms the cache).
+        key = closure_hash(prop_v)
+        cpath = os.path.join(BUILD, "assumptions", prop_v.replace("/", "_") + ".json")
+        cached = None
+        try:
+            cj = json.load(open(cpath))
+            if cj.get("key") == key and cj.get("rc") == 0: cached = cj
+        except (OSError, ValueError):
+            pass
+        if cached:
+            rc, out, err = 0, cached["out"], ""
+            ctx.cov["print_assumptions_output"] = "cached for the same sources of the dependency closure (sha256 %s)" % key[:16]
+        else:
+            rc, out, err = sh(["coqc", "-Q", ".", "OVM", prop_v], cwd=COQ, timeout=timeout)
+            if rc == 0:
+                os.makedirs(os.path.dirname(cpath), exist_ok=True)
+                tmp = cpath + ".tmp%d" % os.getpid()
+                json.dump({"key": key, "rc": 0, "out": out}, open(tmp, "w")); os.replace(tmp, cpath)
         if rc != 0:
             ctx.cov["discharged"] = 0
             ctx.broken.append({"kind": "theorem", "name": prop_v, "detail": (out + err)[-2500:]})
